@@ -106,10 +106,10 @@ Print Assumptions C01_small_list_nodes_inside_inserted_memory.
 
 (* ----- Exec refines Spec, pool level: memory_pool<node_pool> over an uncached arena (PoolExec.v, built from the Exec models of
    the arena and of the intrusive list) ----- *)
-(* one operation: from related states, with any upstream answer that is a fresh aligned block with room for a node, the Spec
-   accepts the events and the result the Exec pool produces, and the states are related again *)
-Theorem C01_pool_exec_step_refines_spec : forall s sp o s' r evs, PR s sp -> 0 < up_ns s < 2^64 ->
-  (match o with PAllocNode (Some addr) => WB sp addr (ar_next (up_ar s)) /\ up_ns s <= ar_next (up_ar s) - hdr | _ => True end) ->
+(* one operation (node or array request through the throwing or the composable member, or a release): from related states,
+   with any upstream answer that is a fresh aligned block with room for a node (answer_ok), the Spec accepts the events and the
+   result the Exec pool produces, and the states are related again *)
+Theorem C01_pool_exec_step_refines_spec : forall s sp o s' r evs, PR s sp -> 0 < up_ns s < 2^64 -> pool_answer_ok s sp o ->
   up_step s o = Some (s', r, evs) -> exists sp', acc_op sp (spec_op_of (up_ns s) o) evs r = Some sp' /\ PR s' sp'.
 Proof. exact step_refines_pool. Qed.
 Print Assumptions C01_pool_exec_step_refines_spec.
@@ -126,8 +126,8 @@ Proof. exact init_PR. Qed.
 Print Assumptions C01_pool_exec_initial_state_related.
 
 Example C01_pool_exec_nonvacuous :
-  match up_run (up_init AGrow 16 176) [PAllocNode (Some 65536); PAllocNode None; PTryAllocNode; PDeallocNode 65552; PAllocNode None] with
-  | Some (s, tr) => ug_live (up_g s) = [(65552, 1); (65584, 1); (65568, 1)] /\ length tr = 5%nat /\
+  match up_run (up_init AGrow 16 176) [PAllocNode (Some 65536); PAllocNode None; PTryAllocNode; PDeallocNode 65552; PAllocNode None; PAllocArray 40 None; PDeallocArray 65600 40; PTryAllocArray 4000] with
+  | Some (s, tr) => ug_live (up_g s) = [(65552, 1); (65584, 1); (65568, 1)] /\ length tr = 8%nat /\
                     PoolSpecProofs.run (mk_ast [ul 16 [] 0]) tr <> None
   | None => False
   end.
